@@ -68,7 +68,7 @@ SCALAR_FAMS = [("laplace", None), ("helmholtz", 1.3), ("helmholtz", 0.7 + 0.4j),
 MAXWELL_KS = [1.3, 0.7 + 0.4j]
 
 
-def space_pairs(mesh, quick):
+def space_pairs(mesh, quick, fam=None):
     """(label, domain spec, dual spec) for scalar V/K/K' operators."""
     d = sorted(set(mesh[2].tolist()))
     out = [("DP0/DP0", {"kind": "DP0"}, {"kind": "DP0"}), ("P1/P1", {"kind": "P1", "inc": True}, {"kind": "P1", "inc": True}),
@@ -81,6 +81,9 @@ def space_pairs(mesh, quick):
         # normals flipped on a proper subset of the domains (normal multipliers not constant), whole grid and segment
         out += [("P1sw/P1sw", {"kind": "P1", "inc": True, "swapped": (d[-1],)}, {"kind": "P1", "inc": True, "swapped": (d[0],)}),
                 ("DP0seg-last-sw/P1sw", {"kind": "DP0", "sel": last, "swapped": (d[-1],)}, {"kind": "P1", "inc": True, "swapped": (d[-1],)})]
+    if quick and fam == "laplace":
+        # one dof-transformed (barycentric) pair in the quick tier: the near-field / singular correction applies dof_transformation
+        out += [("DUAL0/DUAL0", {"kind": "DUAL0", "inc": True, "trunc": False}, {"kind": "DUAL0", "inc": True, "trunc": False})]
     if not quick:
         out += [("DUAL0/DUAL0", {"kind": "DUAL0", "inc": True, "trunc": False}, {"kind": "DUAL0", "inc": True, "trunc": False}),
                 ("DUAL1/DP0", {"kind": "DUAL1"}, {"kind": "DP0"})]
@@ -166,7 +169,7 @@ def run(ctx):
                 for family, k in SCALAR_FAMS:
                     if quick and meshname == "cube12" and family == "helmholtz" and k == 1.3:
                         continue
-                    for label, dspec, tspec in space_pairs(mesh, quick):
+                    for label, dspec, tspec in space_pairs(mesh, quick, family):
                         for name in ("single_layer", "double_layer", "adjoint_double_layer"):
                             if quick and name != "single_layer" and label not in ("P1/P1", "P1seg-last/P1", "DP0seg-last/DP0seg-first", "P1sw/P1sw", "DP0seg-last-sw/P1sw"):
                                 continue
@@ -182,7 +185,7 @@ def run(ctx):
                     if len(doms) > 1:
                         mx.append(("RWGseg-last/SNC", {"kind": "RWG", "sel": ("segments", (doms[-1],)), "inc": True}, {"kind": "SNC", "inc": True}))
                         mx.append(("RWGsw/SNCsw", {"kind": "RWG", "inc": True, "swapped": (doms[-1],)}, {"kind": "SNC", "inc": True, "swapped": (doms[-1],)}))
-                    if not quick and meshname in ("tet", "cube12"):
+                    if meshname == "tet" or (not quick and meshname == "cube12"):
                         mx.append(("BC/RBC", {"kind": "BC"}, {"kind": "RBC"}))
                     for label, dspec, tspec in mx:
                         for name in ("electric_field", "magnetic_field"):
